@@ -142,6 +142,30 @@ func runC03(r *ev.Run) {
 						rep("bm25.search-error", fmt.Sprintf("query %q: %v", q, err))
 						continue
 					}
+					if rng.IntN(6) == 0 {
+						// autocut (WithCutoff): a prefix of the same search without it, by scores (ties at equal scores
+						// may come in either order), for every cutoff value; -1 = disabled = the same answer
+						c := []int{-1, 0, 1, 2, 3, 5, -2, -7}[rng.IntN(8)]
+						s2 := idx.NewSearch().WithQuery(q).WithK(k).WithCutoff(c)
+						if docIDs != nil {
+							s2 = s2.WithDocumentIDs(docIDs...)
+						}
+						gc, err := s2.Execute()
+						switch {
+						case err != nil:
+							rep("bm25.search-error", fmt.Sprintf("query %q cutoff=%d: %v", q, c, err))
+						case len(gc) > len(got) || (c == -1 && len(gc) != len(got)):
+							rep("bm25.cutoff-not-a-prefix", fmt.Sprintf("query %q k=%d cutoff=%d: %d results, without autocut %d", q, k, c, len(gc), len(got)))
+						default:
+							for i := range gc {
+								if math.Float32bits(gc[i].GetScore()) != math.Float32bits(got[i].GetScore()) {
+									rep("bm25.cutoff-not-a-prefix", fmt.Sprintf("query %q k=%d cutoff=%d: rank %d has score %g, without autocut %g", q, k, c, i, gc[i].GetScore(), got[i].GetScore()))
+									break
+								}
+							}
+						}
+						r.Count("probes:with-cutoff", 1)
+					}
 					tag := "bm25"
 					if alt != nil {
 						// open corner: accept either counting of a repeated query token
